@@ -315,6 +315,10 @@ fn cases_for<'a>(m: M, p: &'a str, others: &'a [String]) -> Vec<Case<'a>> {
         M::MkdirM => {
             v.push(base(",mode=40711", "", "", 0o40711));
             v.push(base(",mode=40755", "", "", 0o40755));
+            // the same permissions plus a sticky / set-group-id bit: on a directory that exists with 0755 the
+            // postcondition is false although the rwx part agrees
+            v.push(base(",mode=41755", "", "", 0o41755));
+            v.push(base(",mode=42755", "", "", 0o42755));
         },
         M::Readlink | M::ReadlinkAbs | M::Copyfile | M::Symlink => {
             for q in others {
